@@ -10,7 +10,7 @@ def chk(pid):
     c = CLAIMS[pid]
     return {"property_id": pid, "quick_cmd": f"./check {pid} --tier quick", "thorough_cmd": f"./check {pid} --tier thorough",
             "evidence_file": f"evidence/{pid}.json", "replay_cmd_template": f"./check {pid} --replay {{path}}", "engine": "lean-model",
-            "level_claimed": {"category": "proof", "text": c["text"], "design_ref": f"DESIGN.md section 6 {pid}"},
+            "level_claimed": {"category": "proof", "text": c["text"], "design_ref": f"DESIGN.md section 6 {pid} (design) and section 12 (as built)"},
             "level_note": c["note"], "technique": c["technique"]}
 
 claimed = sorted(p for p in CLAIMS if p in PROPS)
@@ -18,11 +18,11 @@ m = {
     "version": 1,
     "setup_cmd": "./setup.sh",
     "hooks": {
-        "guard": "cargo feature `verif` (teos crate; off by default)",
+        "guard": "cargo feature `verif` (teos and teos-common crates; off by default). Not add-only: hook H5 rewrote the `use std::sync::{Mutex, Condvar}` lines of carrier, chain_monitor, gatekeeper, responder, watcher, api/internal and main.rs to `use crate::vsync::...`, which re-exports std::sync when the feature is off (DESIGN.md 12.3)",
         "enable": "the harness depends on /repo/teos with features=[\"verif\"] (harness/Cargo.toml); `cargo build --offline` in /verif/harness rebuilds /repo's crates from the working tree",
         "baseline_off_cmd": "cd /repo && (cargo nextest run --workspace --no-fail-fast --test-threads 8 --offline || cargo test --workspace --no-fail-fast --offline)",
         "source_commits": HOOK_COMMITS,
-        "add_only": True,
+        "add_only": False,
     },
     "engines": [
         {"name": "lean-model", "path": "lean/", "serves_properties": claimed,
@@ -30,7 +30,7 @@ m = {
         {"name": "harness", "path": "harness/", "serves_properties": claimed,
          "kind_free_text": "Rust correspondence harness linking the real crates in-process (path deps on /repo): simulated bitcoind, history generators, property monitors; emits op streams replayed by the Lean driver"},
         {"name": "extractor", "path": "tools/extract.py", "serves_properties": claimed,
-         "kind_free_text": "translator of constants / comparators / tables from the Rust sources into Gen/Consts.lean"},
+         "kind_free_text": "translator of constants / comparators / tables / config rules / crypto recipe / wire tables from the Rust sources (and build.rs, .proto files) into Gen/{Consts,Config,Crypto,Wire}.lean"},
     ],
     "checks": [chk(p) for p in claimed],
     "notes": "See DESIGN.md. ./check <ID> = extractor -> lake build Props/<ID> + #print axioms audit -> harness on the real code (rebuilt from /repo's working tree) -> model diff -> known-findings filter (known_findings.json) -> evidence/<ID>.json.",
